@@ -556,3 +556,9 @@ func init() {
 	addMutant(Mutant{Name: "c10-relpath-counts-choice", Property: "C10", File: "ytypes/util_schema.go",
 		Old: "\t\t\tif util.IsChoiceOrCase(s) {", New: "\t\t\tif false {", Expect: "ytypes.hasRelativePath:skips-choice-case"})
 }
+
+func init() {
+	// R-CHOICE-FIRSTCHILD (C32)
+	addMutant(Mutant{Name: "c32-firstchild-plain-dir", Property: "C32", File: "util/path.go",
+		Old: "\t\t\tns, ok = choiceCaseChild(s, path[i])\n", New: "\t\t\tns, ok = nil, false\n", Expect: "util.firstMatching:descent-loop"})
+}
